@@ -1,6 +1,6 @@
 (* Engine-level theorems over Model/QCache.v: validity of every cached entry in every sequential
    history, the searcher/writer interleaving, and what an exact-key hit means (C07). *)
-From Coq Require Import QArith Qminmax Qround Qabs List NArith ZArith Bool Arith Lqa Lia.
+From Coq Require Import QArith Qminmax Qround Qabs List NArith ZArith Bool Arith Lqa Lia Sorting.Sorted.
 From Kyro Require Import Model.QCache Proofs.QCacheProofs Proofs.QCacheInv.
 Import ListNotations.
 Open Scope Q_scope.
@@ -23,6 +23,52 @@ Proof. unfold c_put. cbn [c_get]. rewrite c_get_del. destruct (N.eqb id id'); re
 Lemma in_ids (e : entry) id d : In (id, d) (e_results e) -> In id (e_ids e).
 Proof. intro H. unfold e_ids. apply in_map_iff. exists (id, d). auto. Qed.
 
+(* ---- results sorted non-decreasingly by reported distance; `worst` ---- *)
+
+Definition rle (a b : result) : Prop := snd a <= snd b.
+
+Lemma sorted_split k : forall l, StronglySorted rle l ->
+  forall a b, In a (firstn k l) -> In b (skipn k l) -> snd a <= snd b.
+Proof.
+  induction k as [|k IH]; intros l H a b Ha Hb; [inversion Ha|].
+  destruct l as [|z l]; [inversion Ha|]. cbn [firstn skipn] in *.
+  inversion H as [|? ? Hs Hf]; subst. destruct Ha as [Ha|Ha].
+  - subst a. rewrite Forall_forall in Hf. apply Hf.
+    rewrite <- (firstn_skipn k l). apply in_or_app. right. exact Hb.
+  - apply (IH l Hs a b Ha Hb).
+Qed.
+
+Lemma worst_bound (l : list result) (d : Q) :
+  l <> [] -> (forall a, In a l -> snd a <= d) -> exists w, worst l = Some w /\ w <= d.
+Proof.
+  induction l as [|[i x] l IH]; intros Hne H; [congruence|]. cbn [worst].
+  destruct l as [|y l'].
+  - cbn [worst]. exists x. split; [reflexivity|]. apply (H (i, x)). left. reflexivity.
+  - destruct IH as [w [Ew Hw]]; [discriminate|intros a Ha; apply H; right; exact Ha|].
+    rewrite Ew. exists (Qmax x w). split; [reflexivity|].
+    apply Q.max_lub; [apply (H (i, x)); left; reflexivity|exact Hw].
+Qed.
+
+
+Lemma sorted_firstn k : forall l, StronglySorted rle l -> StronglySorted rle (firstn k l).
+Proof.
+  induction k as [|k IH]; intros l H; [constructor|].
+  destruct l as [|z l]; [constructor|]. cbn [firstn]. inversion H as [|? ? Hs Hf]; subst.
+  constructor; [apply IH; exact Hs|].
+  rewrite Forall_forall in *. intros y Hy. apply Hf. apply (in_firstn _ _ _ Hy).
+Qed.
+
+Lemma worst_ge (l : list result) (w : Q) (a : result) : worst l = Some w -> In a l -> snd a <= w.
+Proof.
+  revert w. induction l as [|[i x] l IH]; intros w Hw Ha; [inversion Ha|].
+  cbn [worst] in Hw. destruct (worst l) as [w0|] eqn:E.
+  - inversion Hw; subst. destruct Ha as [Ha|Ha].
+    + subst a. cbn [snd]. apply Q.le_max_l.
+    + specialize (IH w0 eq_refl Ha). pose proof (Q.le_max_r x w0). lra.
+  - inversion Hw; subst. destruct Ha as [Ha|Ha]; [subst a; cbn [snd]; lra|].
+    destruct l as [|[j y] l']; [inversion Ha|]. cbn [worst] in E. destruct (worst l'); discriminate.
+Qed.
+
 Section EngineProofs.
   Variables pre dle dlt : vec -> vec -> Q -> bool.
   Variable isd : vec -> vec -> Q -> Prop.        (* "d is the distance the engine reports for (q, v)" *)
@@ -37,6 +83,8 @@ Section EngineProofs.
   Hypothesis O_live : forall c q k id d, In (id, d) (fresh_search c q k) ->
                         exists v, c_get c id = Some v /\ isd q v d.
   Hypothesis O_len : forall c q k, (length (fresh_search c q k) <= k)%nat.
+  (* (a) the results come sorted non-decreasingly by reported distance *)
+  Hypothesis O_sorted : forall c q k, StronglySorted rle (fresh_search c q k).
   Hypothesis O_omit : forall c q k id v, (1 <= k)%nat -> c_get c id = Some v ->
                         ~ In id (map fst (fresh_search c q k)) ->
                         length (fresh_search c q k) = k /\
@@ -49,7 +97,8 @@ Section EngineProofs.
     (forall id d, In (id, d) (e_results e) -> exists v, c_get c id = Some v /\ isd (e_query e) v d) /\
     (forall id v, c_get c id = Some v -> ~ In id (e_ids e) ->
         (e_kreq e <= length (e_results e))%nat /\
-        exists w, worst (e_results e) = Some w /\ dlt (e_query e) v w = false).
+        exists w, worst (e_results e) = Some w /\ dlt (e_query e) v w = false) /\
+    StronglySorted rle (e_results e).
 
   Lemma valid_fresh c scope q k :
     fresh_search c q k <> [] ->
@@ -58,16 +107,17 @@ Section EngineProofs.
     intro Hne.
     assert (Hk : (1 <= k)%nat).
     { pose proof (O_len c q k). destruct (fresh_search c q k); [congruence|]. cbn [length] in *. lia. }
-    unfold Valid, new_entry, e_ids. cbn [e_results e_query e_kreq]. split.
+    unfold Valid, new_entry, e_ids. cbn [e_results e_query e_kreq]. split; [|split].
     - intros id d H. apply (O_live _ _ _ _ _ H).
     - intros id v Hv Hn. destruct (O_omit c q k id v Hk Hv Hn) as [Hl Hw].
       split; [rewrite Hl; lia|exact Hw].
+    - apply O_sorted.
   Qed.
 
   Lemma valid_insert c e id x :
     Valid c e -> ~ In id (e_ids e) -> insert_hits pre dle x e = false -> Valid (c_put c id x) e.
   Proof.
-    intros [V1 V2] Hn Hh. split.
+    intros [V1 [V2 V3]] Hn Hh. split; [|split; [|exact V3]].
     - intros id' d H. rewrite c_get_put. destruct (N.eqb id id') eqn:E.
       + apply N.eqb_eq in E. subst id'. exfalso. apply Hn. apply (in_ids _ _ _ H).
       + apply (V1 id' d H).
@@ -85,7 +135,7 @@ Section EngineProofs.
 
   Lemma valid_delete c e id : Valid c e -> ~ In id (e_ids e) -> Valid (c_del c id) e.
   Proof.
-    intros [V1 V2] Hn. split.
+    intros [V1 [V2 V3]] Hn. split; [|split; [|exact V3]].
     - intros id' d H. rewrite c_get_del. destruct (N.eqb id id') eqn:E.
       + apply N.eqb_eq in E. subst id'. exfalso. apply Hn. apply (in_ids _ _ _ H).
       + apply (V1 id' d H).
@@ -197,6 +247,65 @@ Section EngineProofs.
       + inversion H; subst. destruct (Hs r eq_refl) as [e [He [Hsc [Hk [Hr _]]]]].
         exists e. split; [exact He|]. split; [apply HV; exact He|]. split; [exact Hsc|]. split; [exact Hk|exact Hr].
     - destruct (fresh_search (e_coll st) q k); inversion H.
+  Qed.
+
+  (* ---- the k-prefix of a valid entry is itself a valid answer for k ---- *)
+
+  (* (b) "not < w" is monotone in the boundary (discharged by dist_lt_mono) *)
+  Hypothesis H_mono : forall q v w w', dlt q v w = false -> w' <= w -> dlt q v w' = false.
+  (* the reported distance is the one dlt compares: a document reported at d is not strictly
+     inside any boundary w <= d *)
+  Hypothesis H_isd : forall q v d w, isd q v d -> w <= d -> dlt q v w = false.
+
+  Definition prefix_entry (e : entry) (k : nat) : entry :=
+    mkEntry (e_scope e) (e_qkey e) (e_query e) k (firstn k (e_results e)).
+
+  Lemma prefix_valid c e k :
+    Valid c e -> (1 <= k)%nat -> (k <= e_kreq e)%nat -> Valid c (prefix_entry e k).
+  Proof.
+    intros [V1 [V2 V3]] Hk1 Hk. unfold Valid, prefix_entry, e_ids. cbn [e_results e_query e_kreq].
+    set (rs := e_results e) in *.
+    split; [|split; [|apply sorted_firstn; exact V3]].
+    - intros id d H. apply (V1 id d). apply (in_firstn _ _ _ H).
+    - intros id v Hv Hn.
+      destruct (in_dec N.eq_dec id (map fst rs)) as [Hin|Hout].
+      + (* listed by the entry, beyond the prefix *)
+        apply in_map_iff in Hin. destruct Hin as [[id' d] [E Hin]]. cbn [fst] in E. subst id'.
+        assert (Hskip : In (id, d) (skipn k rs)).
+        { rewrite <- (firstn_skipn k rs) in Hin. apply in_app_or in Hin. destruct Hin as [H|H]; [|exact H].
+          exfalso. apply Hn. apply in_map_iff. exists (id, d). split; [reflexivity|exact H]. }
+        assert (Hlen : (k < length rs)%nat).
+        { destruct (Nat.lt_ge_cases k (length rs)) as [G|G]; [exact G|].
+          rewrite skipn_all2 in Hskip by exact G. inversion Hskip. }
+        split; [rewrite firstn_length_le; lia|].
+        destruct (worst_bound (firstn k rs) d) as [w [Ew Hw]].
+        * intro E. apply (f_equal (@length result)) in E. rewrite firstn_length_le in E by lia. cbn in E. lia.
+        * intros a Ha. apply (sorted_split k rs V3 a (id, d) Ha Hskip).
+        * exists w. split; [exact Ew|]. destruct (V1 id d Hin) as [v0 [Hv0 Hd]].
+          rewrite Hv in Hv0. inversion Hv0; subst v0. apply (H_isd _ _ _ _ Hd Hw).
+      + (* not listed at all: the entry's own boundary applies, and the prefix's is no larger *)
+        destruct (V2 id v Hv Hout) as [Hfull [w [Ew Hw]]].
+        assert (Hlen : (k <= length rs)%nat) by lia.
+        split; [rewrite firstn_length_le; lia|].
+        destruct (worst_bound (firstn k rs) w) as [w' [Ew' Hw']].
+        * intro E. apply (f_equal (@length result)) in E. rewrite firstn_length_le in E by lia. cbn in E. lia.
+        * intros a Ha. apply (worst_ge rs w a Ew). apply (in_firstn _ _ _ Ha).
+        * exists w'. split; [exact Ew'|]. apply (H_mono _ _ _ _ Hw Hw').
+  Qed.
+
+  (* C07_k_monotone: an engine cache hit for k uses an entry stored for k_req >= k, serves exactly
+     its k-prefix, and that k-prefix is itself a valid answer for k. *)
+  Theorem k_monotone ops scope q k r st' :
+    let st := erun pre dle fresh_search cfg einit ops in
+    (1 <= k)%nat ->
+    estep pre dle fresh_search cfg st (ESearch scope q k) = (st', RHit r) ->
+    exists e, In e (s_entries (e_cache st)) /\ e_scope e = scope /\ (k <= e_kreq e)%nat /\
+              r = firstn k (e_results e) /\ Valid (e_coll st) e /\
+              Valid (e_coll st) (prefix_entry e k) /\ e_results (prefix_entry e k) = r.
+  Proof.
+    intros st Hk H. destruct (hit_valid ops scope q k r st' H) as [e [He [Hv [Hs [Hkk Hr]]]]].
+    exists e. repeat (split; [assumption|]). split; [apply prefix_valid; assumption|].
+    cbn [prefix_entry e_results]. symmetry. exact Hr.
   Qed.
 
   (* ---- interleaving: a result computed before an invalidation is never stored after it ---- *)
